@@ -34,7 +34,13 @@ pub fn bits_to_node(bits: &[bool]) -> (usize, u32) {
 pub fn fresh_truth(g: &GGM, rep: &mut Report) -> Fresh {
   let mut vals = Vec::new();
   let mut val_id = HashMap::new();
+  // (a key handed out by a server may already have retired inputs on its own: they have no value)
+  let retired = logged_set(g);
   for x in 0..256usize {
+    if retired.contains(&(x as u8)) {
+      vals.push(Vec::new());
+      continue;
+    }
     let mut out = vec![0u8; 32];
     let r = guard(|| g.eval(&[x as u8], &mut out));
     rep.evaluations += 1;
@@ -533,6 +539,11 @@ fn nodes_json(g: &GGM) -> Value {
   )
 }
 
+/// the inputs the key itself logs as punctured
+fn logged_set(g: &GGM) -> BTreeSet<u8> {
+  g.verif_punctured().iter().map(|bits| bits_to_node(bits).1 as u8).collect()
+}
+
 fn punct_json(g: &GGM) -> Value {
   Value::Array(
     g.verif_punctured()
@@ -678,9 +689,17 @@ pub fn export(a: &Args) -> Report {
     // a long-lived follower that is re-synchronised from the leader's exported state after
     // every puncture (set_private_key on an instance that already holds an older state)
     let mut follower: Option<Server> = import_server(&export_bytes(&s));
+    // a server may have retired inputs on its own (e.g. everything that is not a registered tag, at
+    // creation): what the key logs as punctured counts as punctured — C11 then demands that nothing
+    // on those paths is retained either; what WE punctured must be in that log
+    p.extend(logged_set(s.verif_pprf()));
     for x in order {
       if matches!(guard(|| s.puncture(x)), Guard::Done(Ok(()))) {
         p.insert(x);
+        if !logged_set(s.verif_pprf()).contains(&x) {
+          rep.violation("C11", "Server::puncture", "export:puncture-not-logged",
+            format!("puncture({x}) succeeded but the key does not list {x} as punctured"), json!({"history": hist, "x": x}));
+        }
       }
       hist.push(x);
       rep.evaluations += 1;
